@@ -276,6 +276,17 @@ LimKind(n, c) == IF c.fam = 4 THEN Nodes[n].lim \div 1000 ELSE 0
 LimN(n)       == Nodes[n].lim % 1000
 Min2(a, b)    == IF a <= b THEN a ELSE b
 
+\* switches attached through action family 5 (change_action*, change_control, enable_action, disable_action), C13:
+\* they hold for the rule itself and its sub-tree
+SwKind(n, c) == IF c.fam = 5 THEN Nodes[n].sw ELSE 0
+Switch(n, c) ==
+   LET k == SwKind(n, c) IN
+   CASE k \in {3, 4, 5} -> [c EXCEPT !.fam = 1]
+     [] k = 6 -> [c EXCEPT !.vis = 0]
+     [] k = 7 -> [c EXCEPT !.A = 1]
+     [] k = 8 -> [c EXCEPT !.A = 0]
+     [] OTHER -> c
+
 \* a node: its body, then its own action
 Den(n, p, c, d) ==
    IF d = 0 THEN RL
@@ -293,7 +304,7 @@ Den(n, p, c, d) ==
           [] lk = 3 ->
                 LET r == DenX(Lift(n), p, c, d - 1) IN
                 IF r.k = "T" /\ r.e - p > LimN(n) THEN RX(XCheck, r.e) ELSE r
-          [] OTHER -> WithAct(n, p, DenX(Lift(n), p, c, d - 1), c)
+          [] OTHER -> LET c2 == Switch(n, c) IN WithAct(n, p, DenX(Lift(n), p, c2, d - 1), c2)
 
 SeqK(ks, i, p, c, d) ==
    IF i > Len(ks) THEN RT(p)
@@ -399,7 +410,7 @@ DenX(x, p, c, d) ==
      [] op = "disable"  -> SeqK(k, 1, p, [c EXCEPT !.A = 0], d)
      [] op = "action"   -> SeqK(k, 1, p, [c EXCEPT !.fam = pp[1]], d)
      [] op = "state"    -> SeqK(k, 1, p, c, d)
-     [] op = "control"  -> RO
+     [] op = "control"  -> SeqK(k, 1, p, [c EXCEPT !.vis = IF pp[1] \in {3, 4} THEN 1 ELSE 0], d)
      \* if_apply / apply / apply0 call their listed actions in order and stop at the first that returns false;
      \* pp = <<kind1, n1, kind2, n2, ...>> describes the harness actions (kind 1 void, 2 bool)
      [] op = "apply"    -> IF c.A = 1 /\ ~IaAll(pp, 0, FALSE) THEN RF ELSE RT(p)
